@@ -639,7 +639,23 @@ pub fn replay_one<S: SubCheck>(s: &S, prop: &str, case: &Value, path: &str) -> i
         }
     }
     for _ in 0..reps {
-        match s.eval(&c) {
+        // a saved case passes on the tree it was saved for; if a library call now panics where the
+        // harness does not expect it (e.g. inside drop), the evaluation itself unwinds: that is
+        // reported, not left to end the process
+        let v = match std::panic::catch_unwind(std::panic::AssertUnwindSafe(|| s.eval(&c))) {
+            Ok(v) => v,
+            Err(e) => {
+                let text = e
+                    .downcast_ref::<String>()
+                    .cloned()
+                    .or_else(|| e.downcast_ref::<&'static str>().map(|x| x.to_string()))
+                    .unwrap_or_else(|| "non-string payload".to_string());
+                eprintln!("replay: clause=evaluation-panicked detail=a call of the replayed case panicked: {}", text);
+                println!("VIOLATION property={} replay={}", prop, path);
+                return 1;
+            }
+        };
+        match v {
             Verdict::Pass { .. } => {}
             Verdict::Fail {
                 clause,
